@@ -254,8 +254,10 @@ func CaseCatalogue(m *Model) []Edit {
 	return c.out
 }
 
-// CatalogueAll is Catalogue followed by CaseCatalogue.
-func CatalogueAll(m *Model) []Edit { return append(Catalogue(m), CaseCatalogue(m)...) }
+// CatalogueAll is Catalogue followed by CaseCatalogue and ExtraCatalogue.
+func CatalogueAll(m *Model) []Edit {
+	return append(append(Catalogue(m), CaseCatalogue(m)...), ExtraCatalogue(m)...)
+}
 
 // pickVariants returns at most n variants for the j-th object of a scope, rotating through the variant
 // kinds so that every kind is used on some object.
@@ -372,7 +374,7 @@ func (c *catalogue) caseColumns(t *Table) {
 				m.Table(n).Columns = append(m.Table(n).Columns, &Column{Name: vn, Type: T(m.Dialect).Int(), Null: true})
 			})
 			// an expression that reads the column by text cannot follow: only columns nothing reads by text.
-			if vi > 0 || len(uses[old]) > 0 {
+			if vi > 0 || len(uses[old]) > 0 || inAutoIndex(t, old) {
 				continue
 			}
 			exp := []Desc{{Kind: "DropColumn", Table: n, Object: old}, {Kind: "AddColumn", Table: n, Object: vn}}
@@ -475,7 +477,7 @@ func (c *catalogue) caseIndexes(t *Table) {
 	}
 	j := 0
 	for _, i := range t.Indexes {
-		if i.Name == "" {
+		if i.Name == "" || IsAutoIndexName(i.Name) {
 			continue
 		}
 		old := i.Name
